@@ -282,10 +282,24 @@ def tr_expand(run):
     v["tag_open"] = nd.get("fmtPos_cur")
     v["tag_close"] = nd.get("fmtPos_nextFormatTag")
     v["tag_colon"] = nd.get("dataSourceTag")
-    lits = [c_unescape(x) for x in re.findall(r"snoopy_message_append\s*\(\s*logMessage\s*,\s*logMessageBufSize\s*,\s*" + STR + r"\s*\)", body)]
-    names = ["e_close", "e_nf1", "e_nf2", "e_f1", "e_f2", "e_f3"]
-    if len(lits) == 6:
-        v.update(dict(zip(names, lits)))
+    # the six error texts, by the condition they are appended under (not by position): closing tag missing / name unknown / data source failed;
+    # read through file-local static helpers the statements may have been moved to
+    rb_ = reachable_body(msg, "snoopy_message_generateFromFormat")
+    marks = [(m.start(), "close") for m in re.finditer(r"(?:NULL\s*==\s*fmtPos_nextFormatTagClose|fmtPos_nextFormatTagClose\s*==\s*NULL|!\s*fmtPos_nextFormatTagClose)", rb_)]
+    marks += [(m.start(), "nf") for m in re.finditer(r"!\s*snoopy_datasourceregistry_doesNameExist\s*\(|snoopy_datasourceregistry_doesNameExist\s*\([^)]*\)\s*==\s*SNOOPY_FALSE|SNOOPY_FALSE\s*==\s*snoopy_datasourceregistry_doesNameExist", rb_)]
+    marks += [(m.start(), "f") for m in re.finditer(r"SNOOPY_DATASOURCE_FAILED\s*\(|SNOOPY_DATASOURCE_FAILURE\s*==|==\s*SNOOPY_DATASOURCE_FAILURE", rb_)]
+    marks.sort()
+    groups = {"close": [], "nf": [], "f": []}
+    for m in re.finditer(r"snoopy_message_append\s*\(\s*\w+\s*,\s*\w+\s*,\s*" + STR + r"\s*\)", rb_):
+        before = [k for (p_, k) in marks if p_ < m.start()]
+        if before:
+            groups[before[-1]].append(c_unescape(m.group(1)))
+    if (len(groups["close"]), len(groups["nf"]), len(groups["f"])) == (1, 2, 3):
+        v.update({"e_close": groups["close"][0], "e_nf1": groups["nf"][0], "e_nf2": groups["nf"][1],
+                  "e_f1": groups["f"][0], "e_f2": groups["f"][1], "e_f3": groups["f"][2]})
+    else:
+        run.notes.append("translator: message.c: error texts not recognised (expected 1 under 'closing tag missing', 2 under 'name unknown', 3 under 'data source failed'; found %d/%d/%d)"
+                         % (len(groups["close"]), len(groups["nf"]), len(groups["f"])))
     m = re.search(r"dataSourceMsgBufSize\s*=\s*([^;]+);", body)
     v["ds_buf_adj"] = adj(m.group(1), "dataSourceMsgMaxLength") if m else None
     sbody = func_body(strip_comments(run.src("src/util/string.c")), "snoopy_util_string_append") or ""
